@@ -26,6 +26,7 @@ def check(ctx):
     for cls in ("MPSBackendImpl", "NoisyMPSBackendImpl", "DMRGBackendImpl"):
         perm.check_impl(ctx, K + cls, {"drive", "matrix", "state", "permfield"})
     step.step_mps(ctx)
+    step.mps_initial_state(ctx)
     tdvp.tdvp_moves(ctx)
     tdvp.corner_case(ctx)
     tdvp.bath_pairing(ctx, K + "MPSBackendImpl", ["_left_to_right_update_tdvp", "_right_to_left_update_tdvp"])
